@@ -8,7 +8,7 @@ use blsful::inner_types::{Field, Group};
 use blsful::*;
 use serde_json::json;
 
-pub const RULE: &str = "message lengths {0..=40, 100..=140, 16383, 16384, 16385, 65535, 65536} (quick: every 3rd of the short ranges + all boundary lengths) x 3 schemes x 2 groups x fresh keys x contents (random everywhere; all-zero, all-0xff and counter at lengths 1,31,32,33,127,128,129,16384 in the quick tier and at every length in the thorough tier). Honest: is_valid()==1, decrypt(sk)==msg, SignCryptDecryptionKey(u*sk).decrypt==msg, sk.sign_decryption_key path, decode(encode(ct)) decrypts, and the REFERENCE opens the library's ciphertext to msg. Tamper: EXHAUSTIVE single-bit flips of the whole byte encoding (u, length prefix, v, w, scheme byte) for one ciphertext of a message <= 8 bytes per (scheme,group) cell, 64 sampled flips for every other ciphertext; component-level changes: u+G, 2u, u of another ciphertext, w+G, -w, w of another ciphertext, v truncated by 1 / to empty / extended by 1 and 32 bytes / one byte changed, each other scheme label; 8 independent wrong keys and the related keys -k, k+1, k-1, 2k, 1/k. A flip whose encoding no longer decodes is counted as rejected-at-decode (trivial); one that decodes to the SAME value (non-canonical scheme byte) is not an alteration; every other one is non-trivial and must give is_valid()==0 and decrypt()==None on all three decrypt paths. Wrong keys must never return the original message. History clusters (1 quick / 6 thorough per group): the ciphertext of every scheme and seven altered copies (three labels, u+G, w+G, a payload bit, payload truncated) through is_valid / decrypt / decryption key / decrypt under a wrong key are asked in ordered pairs (a,b) as a,b,b,a; every answer must equal the answer the question has on its own. Distinct by (suite,scheme,variant,ciphertext bytes).";
+pub const RULE: &str = "message lengths {0..=40, 100..=140, 150..=230 (where point||payload and seed||payload cross 256 bytes), 16383, 16384, 16385, 65535, 65536} (quick: every 3rd of the short ranges + all boundary lengths) x 3 schemes x 2 groups x fresh keys x contents (random everywhere; all-zero, all-0xff and counter at lengths 1,31,32,33,127,128,129,16384 in the quick tier and at every length in the thorough tier). Honest: is_valid()==1, decrypt(sk)==msg, SignCryptDecryptionKey(u*sk).decrypt==msg, sk.sign_decryption_key path, decode(encode(ct)) decrypts, and the REFERENCE opens the library's ciphertext to msg. Tamper: EXHAUSTIVE single-bit flips of the whole byte encoding (u, length prefix, v, w, scheme byte) for one ciphertext of a message <= 8 bytes per (scheme,group) cell, 64 sampled flips for every other ciphertext; component-level changes: u+G, 2u, u of another ciphertext, w+G, -w, w of another ciphertext, v truncated by 1 / to empty / extended by 1 and 32 bytes / one byte changed, each other scheme label; 8 independent wrong keys and the related keys -k, k+1, k-1, 2k, 1/k. A flip whose encoding no longer decodes is counted as rejected-at-decode (trivial); one that decodes to the SAME value (non-canonical scheme byte) is not an alteration; every other one is non-trivial and must give is_valid()==0 and decrypt()==None on all three decrypt paths. Wrong keys must never return the original message. History clusters (1 quick / 6 thorough per group): the ciphertext of every scheme and seven altered copies (three labels, u+G, w+G, a payload bit, payload truncated) through is_valid / decrypt / decryption key / decrypt under a wrong key are asked in ordered pairs (a,b) as a,b,b,a; every answer must equal the answer the question has on its own. Distinct by (suite,scheme,variant,ciphertext bytes).";
 
 pub fn run(ctx: &mut Ctx) {
     for_both!(run_suite, ctx);
@@ -27,6 +27,11 @@ fn lengths(t: Tier) -> Vec<usize> {
             v.extend(0..=40);
             v.extend(100..=140);
         }
+    }
+    // lengths at which (48- or 96-byte point || payload) and (32-byte seed || payload) cross 256 bytes
+    match t {
+        Tier::Quick => v.extend([159usize, 160, 176, 191, 207, 208, 223, 224, 225]),
+        Tier::Thorough => v.extend(150..=230),
     }
     v.extend([16383, 16384, 16385, 65535, 65536]);
     v.sort_unstable();
